@@ -19,12 +19,44 @@ RULES = {
 }
 
 
+def moves_phase(ctx):
+    """client.MoveNode / client.MirrorNode from every start shape (Store!Move, Store!Mirror)."""
+    import json
+    import vlib
+    from props.common import harness
+    r = vlib.run_tlc(ctx.sc, "MC_Store", "MC_Store_ascoded_move.cfg", allow_violation=True, timeout=900)
+    if not r.violation or "MovesAtomicAsCoded" not in r.violation:
+        raise vlib.MachineryError("a move without the up-front check no longer violates MovesAtomicAsCoded in MC_Store.tla")
+    shapes = ("chain", "diamond") if ctx.tier == "quick" else ("chain", "diamond", "delbottom", "moved")
+    cases = []
+    for sh in shapes:
+        g = vlib.run_tlc(ctx.sc, "MC_Store", "Gen_StoreMoves_%s.cfg" % sh, collect_json=True, workers=1, timeout=900)
+        cases += g.lines
+    p = ctx.sc.path("moves.jsonl")
+    with open(p, "w") as f:
+        for c in cases:
+            f.write(json.dumps(c) + "\n")
+    vlib.log("role2 MC_Store moves / mirrors: %d cases from %s" % (len(cases), ", ".join(shapes)))
+    vh = vlib.build_vh()
+    return harness(ctx, vh, ["moves", "--cases", p, "--seed", str(ctx.seed)], timeout=3000)
+
+
 def run(ctx):
     cov, failures = run_stream(ctx, "C05")
+    mres = moves_phase(ctx)
+    failures += [f for f in mres["failures"] if f["finding"].startswith("C05:")]
+    cov["evaluations"] += mres["evaluations"]
+    cov["traces_validated_against_impl"] += mres["traces"]
+    cov["role1"] = cov.get("role1", []) + [{"cfg": "MC_Store_ascoded_move.cfg", "must_violate": "MovesAtomicAsCoded", "violated": True}]
     cov["rule"] = RULES["C05"] + (" Behaviours: all sequences of 2 requests over root + 2 nodes, every request after a diamond / "
                                  "chain / mirror-with-deleted-edge start over root + 3 nodes (thorough: every 2 requests), and "
                                  "TLC-simulated sequences of 7 requests. evaluations = requests replayed; distinct_nontrivial = "
-                                 "distinct (request, predicted reply) pairs.")
+                                 "distinct (request, predicted reply) pairs. Moves and mirrors: TLC checks MovesAtomic / MirrorsAtomic "
+                                 "(Store!Move, Store!Mirror: a refused composite operation leaves the store unchanged and publishes nothing) "
+                                 "for every node, old and new parent from every reachable state, and that a move without the up-front check "
+                                 "must fail; client.MoveNode / client.MirrorNode are called for every (node, old parent, new parent) from "
+                                 "the start shapes: predicted refusals must return an error, leave the dump (points, edges, hashes) unchanged "
+                                 "and publish nothing; accepted ones must give the predicted placements and hashes in step with the content.")
     return {"coverage": cov, "failures": failures,
             "assumptions": ["CRC collisions abstracted away in the model (free XOR algebra); check (i) is concrete",
                             "writes with parent 'root' for non-root nodes (root replacement) are outside the alphabet"]}
